@@ -44,11 +44,16 @@ def wf_topdown():
     return W.Workflow([W.T("X", ["b", "c"], ["x"], spec="echo X\n"), W.T("B", ["c"], ["b"], spec="echo B\n"), W.T("C", ["src"], ["c"], spec="echo C\n")])
 
 
+def wf_forkp():
+    # fork in which every output of B is protected: cleaning B deletes nothing, and still forgets B's recorded spec
+    return W.Workflow([W.T("A", ["src"], ["a"], spec="echo A\n"), W.T("B", ["a"], ["b"], spec="echo B\n", protect=["b"]), W.T("C", ["a"], ["c1", "c2"], spec="echo C\n")])
+
+
 def wf_twocomp():
     return W.Workflow([W.T("A", ["src"], ["a"], spec="echo A\n"), W.T("B", ["a"], ["b"], spec="echo B\n"), W.T("X", ["src2"], ["x"], spec="echo X\n")])
 
 
-WORKFLOWS = {"twocomp": wf_twocomp, "shortcut": wf_shortcut, "fork": wf_fork, "chain": wf_chain, "diamond": wf_diamond, "pair": wf_pair, "topdown": wf_topdown}
+WORKFLOWS = {"twocomp": wf_twocomp, "shortcut": wf_shortcut, "fork": wf_fork, "chain": wf_chain, "diamond": wf_diamond, "pair": wf_pair, "topdown": wf_topdown, "forkp": wf_forkp}
 
 SUBMIT_EXE = {"slurm": "sbatch", "sge": "qsub", "lsf": "bsub"}
 
